@@ -35,7 +35,8 @@ COVERAGE_TARGETS = [f'{op}:ok:{st}' for st in ('list', 'dict') for op in
 
 
 def _payload(x):
-    if isinstance(x, dict):
+    import collections.abc
+    if isinstance(x, collections.abc.Mapping):
         return {'d': [[k, v] for k, v in x.items()]}
     return {'l': list(list.__iter__(x))}
 
@@ -60,6 +61,9 @@ def run_impl(case):
     import param
     kind, decl = case['kind'], case['decl']
     objs = {k: v for k, v in decl['names']} if decl['names'] is not None else list(decl['objs'])
+    if decl['names'] is not None and decl.get('mapping') == 'proxy':
+        import collections
+        objs = collections.UserDict(objs)         # any Mapping is dictionary-style, not only dict
     P = param.Selector if kind == 'Selector' else param.ListSelector
     try:
         cls = type('S', (param.Parameterized,), {'s': P(objects=objs, check_on_set=decl['check_on_set'])})
@@ -85,7 +89,11 @@ def run_impl(case):
                 elif o == 'extend':
                     p.objects.extend(list(op['os']))
                 elif o == 'update':
-                    p.objects.update([(k, v) for k, v in op['kvs']])
+                    nkw = op.get('nkw', 0)        # the last nkw pairs are passed as keyword items
+                    pos, kw = op['kvs'][:len(op['kvs']) - nkw], op['kvs'][len(op['kvs']) - nkw:]
+                    if len({k for k, _ in kw}) != len(kw):
+                        pos, kw = op['kvs'], []
+                    p.objects.update([(k, v) for k, v in pos], **{k: v for k, v in kw})
                 elif o == 'popIdx':
                     ret = p.objects.pop(op['i']) if not op.get('default') else p.objects.pop()
                 elif o == 'popKey':
@@ -97,7 +105,11 @@ def run_impl(case):
                 elif o == 'replaceList':
                     p.objects = list(op['os'])
                 elif o == 'replaceDict':
-                    p.objects = {k: v for k, v in op['kvs']}
+                    d = {k: v for k, v in op['kvs']}
+                    if op.get('mapping') == 'proxy':
+                        import collections
+                        d = collections.UserDict(d)
+                    p.objects = d
                 elif o == 'assign':
                     setattr(inst, 's', op['v'] if kind == 'Selector' else [op['v']])
                 else:
@@ -118,6 +130,7 @@ def _decls():
     for kind in ('Selector', 'ListSelector'):
         yield kind, {'objs': [1, 2, 3], 'names': None, 'check_on_set': True}
         yield kind, {'objs': [1, 2, 3], 'names': [['a', 1], ['b', 2], ['c', 3]], 'check_on_set': True}
+    yield 'Selector', {'objs': [1, 2, 3], 'names': [['a', 1], ['b', 2], ['c', 3]], 'check_on_set': True, 'mapping': 'proxy'}
     yield 'Selector', {'objs': [], 'names': None, 'check_on_set': True}
     yield 'Selector', {'objs': [1, 2], 'names': None, 'check_on_set': False}
 
@@ -136,6 +149,8 @@ def _alphabet(style, pos):
                              {'op': 'replaceList', 'os': [n1, 2, n2]}, {'op': 'replaceList', 'os': []}]
     return common_ops + [{'op': 'setKey', 'k': 'a', 'o': n1}, {'op': 'setKey', 'k': 'z', 'o': n1},
                          {'op': 'update', 'kvs': [['b', n1], ['y', n2]]}, {'op': 'update', 'kvs': []},
+                         {'op': 'update', 'kvs': [['b', n1], ['y', n2]], 'nkw': 2},
+                         {'op': 'replaceDict', 'kvs': [['p', n1], ['q', n2]], 'mapping': 'proxy'},
                          {'op': 'popKey', 'k': 'a'}, {'op': 'popKey', 'k': 'c'}, {'op': 'popKey', 'k': 'q'},
                          {'op': 'replaceDict', 'kvs': [['p', n1], ['a', 2], ['q', n2]]},
                          {'op': 'replaceDict', 'kvs': []}]
@@ -195,6 +210,8 @@ def _random_case(rng):
                 op = {'op': 'replaceList', 'os': [newo() for _ in range(rng.randint(0, 4))]}
             else:
                 op = {'op': 'replaceDict', 'kvs': [[rng.choice('abcdxyz'), newo()] for _ in range(rng.randint(0, 4))]}
+                if rng.random() < 0.3:
+                    op['mapping'] = 'proxy'
         elif st == 'list':
             k = rng.choice(['setIdx', 'append', 'insert', 'extend'])
             op = {'setIdx': lambda: {'op': 'setIdx', 'i': idx(), 'o': newo()},
@@ -204,7 +221,8 @@ def _random_case(rng):
         else:
             k = rng.choice(['setKey', 'setKey', 'update', 'popKey'])
             op = {'setKey': lambda: {'op': 'setKey', 'k': ekey(), 'o': newo()},
-                  'update': lambda: {'op': 'update', 'kvs': [[ekey(), newo()] for _ in range(rng.randint(0, 3))]},
+                  'update': lambda: (lambda kvs: {'op': 'update', 'kvs': kvs, 'nkw': rng.randint(0, len(kvs))})(
+                      [[ekey(), newo()] for _ in range(rng.randint(0, 3))]),
                   'popKey': lambda: {'op': 'popKey', 'k': ekey()}}[k]()
         ops.append(op)
         # keep the shadow roughly in step by asking nothing of the implementation: approximate
